@@ -69,6 +69,11 @@ func modelEnv(model string) []string {
 }
 
 func runReplay(ent replayEntry, env []string) (violated bool, out string) {
+	return runReplayFile(ent, filepath.Join(verifRoot, "replays", ent.File), env)
+}
+
+// runReplayFile injects file as an in-package test of ent's package and runs ent.Test.
+func runReplayFile(ent replayEntry, file string, env []string) (violated bool, out string) {
 	tmp, err := os.MkdirTemp("", "gcv-replay-")
 	if err != nil {
 		return false, err.Error()
@@ -79,7 +84,7 @@ func runReplay(ent replayEntry, env []string) (violated bool, out string) {
 		modDir = filepath.Join(repoRoot, ent.Mod)
 	}
 	pkgDir := filepath.Join(modDir, ent.Pkg)
-	ov := map[string]map[string]string{"Replace": {filepath.Join(pkgDir, "zz_gcv_replay_test.go"): filepath.Join(verifRoot, "replays", ent.File)}}
+	ov := map[string]map[string]string{"Replace": {filepath.Join(pkgDir, "zz_gcv_replay_test.go"): file}}
 	data, _ := json.Marshal(ov)
 	ovf := filepath.Join(tmp, "overlay.json")
 	os.WriteFile(ovf, data, 0o644)
@@ -102,7 +107,10 @@ func tryReplay(cr *checkRun, a *AggOb, path string) (bool, string) {
 	idx := loadReplayIndex()
 	ent, ok := idx[a.Name]
 	if !ok {
-		return false, "no replay driver registered for this obligation"
+		if v, info := autoReplay(cr, a, 10, 0); v || info != "" {
+			return v, info
+		}
+		return false, "no replay driver registered for this obligation, and the function is not a value function the generated driver can call"
 	}
 	var env []string
 	for _, p := range a.Parts {
